@@ -1,7 +1,7 @@
 (* C19 -- proofs about operation sequences (Model/C19_History.v): no sequence of statistic /
    conversion / burnthin operations changes a stored chain, and what an operation returns is a
    function of the stored objects it reads only (not of the history). *)
-From CV Require Import Base.Tac Base.Cmp Model.C19_Stats Model.C19_History Proofs.C19_Stats.
+From CV Require Import Base.Tac Base.Cmp Model.C19_Stats Model.C19_Rhat Model.C19_History Proofs.C19_Stats.
 From Coq Require Import QArith.
 From Coq Require String.
 
@@ -237,11 +237,49 @@ Theorem geometry_eq_lazy_cache_refuted :
     all_values_equal g (dict_set k v g) = Some true.
 Proof. exists [("_grid", 3%Z); ("_variables", 5%Z)], "_funvec_shape", 1%Z. vm_compute. repeat split. Qed.
 
-(* with a geometry comparison that answers the same, R-hat hands over the same chains whatever happened before;
-   the value of ORhat differs between the two possible answers exactly when the hand-over would take place *)
-Theorem rhat_value_needs_geom_eq g i j st x y :
-  nth_error st i = Some x -> nth_error st j = Some y ->
-  fst (step g (ORhat i j false) st) = VRefused.
+(* without a positive answer of the geometry comparison nothing is handed to arviz *)
+Theorem rhat_value_needs_geom_eq g i js m st args :
+  lookup_all st (i :: js) = Some args -> fst (step g (ORhat i js false m) st) = VRefused.
 Proof.
-  intros Hx Hy. unfold step. cbn [op_targets lookup_all]. rewrite Hx, Hy. reflexivity.
+  intros H. unfold step. cbn [op_targets]. rewrite H.
+  destruct args as [|x ys]; [cbn in H; destruct (nth_error st i); [destruct (lookup_all st js)|]; discriminate|].
+  reflexivity.
+Qed.
+
+(* R-hat hand-over: with validated lengths (repaired code) every chain handed to arviz is a stored chain,
+   unpermuted and complete; the unrepaired code also accepts a one-draw chain and hands over a fabricated one *)
+Lemma rhat_others_exact g n ys cs :
+  g_rhat_bcast g = false -> rhat_others g n ys = Some cs ->
+  cs = map s_chain ys /\ Forall (fun y => length (s_chain y) = n /\ s_is_vec y = true) ys.
+Proof.
+  intros Hb. revert cs; induction ys as [|y r IH]; intros cs; cbn [rhat_others map].
+  - intros [= <-]. split; constructor.
+  - unfold rhat_other at 1. rewrite Hb. cbn [andb].
+    destruct (s_is_vec y) eqn:Ev; cbn [negb]; [|discriminate].
+    destruct (Nat.eqb_spec (length (s_chain y)) n) as [El|]; [|discriminate].
+    destruct (rhat_others g n r) as [t|]; [|discriminate]. intros [= <-].
+    destruct (IH t eq_refl) as [-> F]. split; [reflexivity | constructor; [split; [exact El | exact Ev] | exact F]].
+Qed.
+
+Theorem rhat_handover_exact g x ys geq m d sq :
+  g_rhat_bcast g = false -> rhat_value g x ys geq m = VRhat d sq ->
+  d = dict_of (zip (g_names g) (map (fun k => map (coordchain k) (s_chain x :: map s_chain ys))
+                                    (seq 0 (chain_dim (s_chain x))))) /\
+  Forall (fun y => length (s_chain y) = length (s_chain x)) ys.
+Proof.
+  intros Hb. unfold rhat_value.
+  destruct (negb geq || negb (s_is_vec x) || (g_novec g && negb (s_is_par x))); [discriminate|].
+  destruct (rhat_others g (length (s_chain x)) ys) as [cs|] eqn:E; [|discriminate].
+  intros [= <- _]. destruct (rhat_others_exact _ _ _ _ Hb E) as [-> F]. split; [reflexivity|].
+  eapply Forall_impl; [|exact F]. cbn. intros y [H _]. exact H.
+Qed.
+
+Theorem rhat_one_draw_broadcast_refuted :
+  exists g x y d sq, g_rhat_bcast g = true /\ rhat_value g x [y] true RRank = VRhat d sq /\
+    length (s_chain y) <> length (s_chain x) /\
+    d = [("v", [[1; 2; 3; 4]; [7; 7; 7; 7]])]%Z.
+Proof.
+  exists (mkG ["v"] 1 0 false false true), (mkS [[1]; [2]; [3]; [4]]%Z true true 0%nat),
+         (mkS [[7]]%Z true true 0%nat). eexists. eexists.
+  split; [reflexivity|]. split; [vm_compute; reflexivity|]. split; [cbn; lia | reflexivity].
 Qed.
